@@ -736,7 +736,7 @@ func (a *apiGen) craftPending() {
 }
 
 func genApi(g *Gen) {
-	nHist := g.Scale(60, 1500)
+	nHist := g.Scale(60, 800)
 	for h := 0; h < nHist; h++ {
 		l := newLedGen(g, "api")
 		a := &apiGen{l: l, g: g, precise: true, exported: map[string]bool{}, removing: map[string]bool{}, removed: map[string]bool{}, import_: map[string]bool{}}
